@@ -164,6 +164,9 @@ func genPlanC08(def *PropDef, tier string, seed uint64, run int64) *Plan {
 				op = Op{K: "get_key", Key: sKeys[rng.Intn(len(sKeys))]}
 			case 5:
 				op = Op{K: "get_time", A: rng.I64(-10, 3000000)}
+				if rng.Chance(25) {
+					op.A = rng.I64(-10, 0) // before (or at) the first message: answered by the oldest message
+				}
 			case 6:
 				sel := &OffSel{Kind: "abs"}
 				switch rng.Pick(50, 25, 25) {
